@@ -379,6 +379,7 @@ def verify(contract, all_contracts=(), timeout_ms=10000, mutate=None, negate_pos
             eng.inputs.update(cx.extra_inputs)
             spec_globals = Env(menv, dict(contract.spec_env))
             spec_globals.vars.update(cx.spec_env)
+            eng.assumed_kinds = bool(contract.region)
             res.opaque = list(eng.opaque_exprs)
             res.replaced = [k for k, v in cx.spec_env.items() if isinstance(v, (Builtin, Obj)) and getattr(v, 'name', k) is not None
                             and (_module_defines(menv, k) or k in ('sorted', 'set', 'len', 'sum', 'min', 'max', 'list', 'dict', 'tuple'))]
